@@ -140,7 +140,7 @@ func checkCmd(args []string) int {
 			if r.Unwind > 0 {
 				P.Unwind = r.Unwind
 			}
-			P.Solver = "z3"
+			P.Solver = "cvc5"
 			if r.Solver != "" {
 				P.Solver = r.Solver
 			}
